@@ -154,7 +154,7 @@ def _run_body_once(interp, st, frame):
         return ("raise", r)
 
 
-def _summarise_segment(interp, st, frame, classes):
+def _summarise_segment(interp, st, frame, classes, run_atom=None):
     """classes: list of (Ch, count Lin/Sym, label).  Returns True if the loop was left by ``break``."""
     from .absint import CannotDecide, ReturnEx
     names = [n for n in _assigned_names(st.body)]
@@ -165,7 +165,8 @@ def _summarise_segment(interp, st, frame, classes):
     for ch, cnt, label in classes:
         frame.locals = dict(saved)
         gen = _genericise(interp, frame, names)
-        interp.assign(st.target, ch, frame)
+        one = next(iter(ch.members)) if ch.members is not None and len(ch.members) == 1 else ch
+        interp.assign(st.target, one, frame)
         n0 = len(interp.chooser.trace)
         outcome = _run_body_once(interp, st, frame)
         if len(interp.chooser.trace) != n0:
@@ -202,6 +203,16 @@ def _summarise_segment(interp, st, frame, classes):
                 apps = [(deltas[v][1], label) for ch, cnt, label, oc, deltas, gen, _, _n in normal
                         if deltas.get(v) and deltas[v][0] == "str" and deltas[v][1]]
                 if len(apps) > 1:
+                    # each class appends its own character: the accumulator receives a copy of the run
+                    own = {}
+                    for ch, cnt, label, oc, deltas, gen, _, _n in normal:
+                        d = deltas.get(v)
+                        if d and d[0] == "str" and d[1]:
+                            own[label] = (ch.members is not None and len(ch.members) == 1 and d[1] == next(iter(ch.members)))
+                    if all(own.values()) and len(own) == len(normal) and run_atom is not None \
+                            and all(counts[l] is c_ for (c__, c_, l, *_r) in normal for _x in [0]):
+                        out[v] = simplify_str(AbsStr([cur, run_atom]))
+                        continue
                     raise CannotDecide("fold appends different text for several classes to %r" % v)
                 if apps:
                     out[v] = simplify_str(AbsStr([cur, Rep(apps[0][0], counts[apps[0][1]])]))
@@ -276,7 +287,7 @@ def for_over_absstr(interp, st, it, frame):
                 continue
         elif isinstance(atom, Run):
             classes = [(c, Lin.of(atom.count[c.name]), "%s,%s" % (atom.name, c.name)) for c in atom.classes]
-            if _summarise_segment(interp, st, frame, classes):
+            if _summarise_segment(interp, st, frame, classes, run_atom=atom):
                 return True
         elif isinstance(atom, Rep):
             if len(atom.lit) != 1:
